@@ -391,13 +391,19 @@ func (m *{{ .Name }}) Filter(fn filter{{ .CapitalizedName }}Func) {
 	m.mx.Lock()
 	defer m.mx.Unlock()
 
+	// Nothing is removed before the callback has been asked about every
+	// entry: if it panics, the map stays as it was.
 	kept := m.order[:0:0]
+	dropped := m.order[:0:0]
 	for _, k := range m.order {
 		if fn(k, m.data[k]) {
 			kept = append(kept, k)
 		} else {
-			delete(m.data, k)
+			dropped = append(dropped, k)
 		}
+	}
+	for _, k := range dropped {
+		delete(m.data, k)
 	}
 	m.order = kept
 }
